@@ -74,6 +74,70 @@ func runC19(r *engine.Run) {
 		}
 	})
 
+	// a refused call between two valid ones: Encode(w1 fragments), Encode(refused: a length that does not
+	// divide, floor(len/size) = w2; or size 0 / negative), Encode(w2 fragments): the third call's parity is
+	// the specification's for w2 whatever the refused call left behind. One worker: what is left behind is
+	// process state.
+	ws := []int{2, 5, 7, 8, 9, 12, 16, 33}
+	r.PartWorkers("refused-between-valid", []string{fmt.Sprintf("w1:%d", len(ws)), fmt.Sprintf("w2:%d", len(ws)), "fragment size{2,5}", "refused call{non-dividing length, size 0, size -1}"}, uint64(len(ws)*len(ws)*2*3), 1, func(c *engine.Case) {
+		i := int(c.Index)
+		w1, w2 := ws[i%len(ws)], ws[(i/len(ws))%len(ws)]
+		i /= len(ws) * len(ws)
+		size := []int{2, 5}[i%2]
+		kind := i / 2
+		block := func(w int) []byte {
+			b := make([]byte, w*size)
+			for k := range b {
+				b[k] = byte(k*11 + w)
+			}
+			return b
+		}
+		const red = 6
+		c.Eval()
+		if _, err := fragmentation.Encode(block(w1), size, red); err != nil {
+			c.Fail("encode-refuses-valid-arguments", fmt.Sprintf("M=%d size=%d: %v", w1, size, err), nil)
+			return
+		}
+		var refusedErr error
+		switch kind {
+		case 0:
+			_, refusedErr = fragmentation.Encode(append(block(w2), 0xEE), size, red)
+		case 1:
+			_, refusedErr = fragmentation.Encode(block(w2), 0, red)
+		default:
+			_, refusedErr = fragmentation.Encode(block(w2), -1, red)
+		}
+		if refusedErr == nil {
+			c.Fail("invalid-arguments-accepted", fmt.Sprintf("refused-call kind %d with %d fragments of %d bytes returned no error", kind, w2, size), nil)
+		}
+		data := block(w2)
+		var frags [][]byte
+		var err error
+		if pn, site, v := engine.Try(func() { frags, err = fragmentation.Encode(append([]byte(nil), data...), size, red) }); pn {
+			c.Fail("panic/"+site, fmt.Sprintf("Encode(%d fragments of %d bytes) after Encode(%d fragments) and a refused call panics: %v", w2, size, w1, v), nil)
+			return
+		}
+		if err != nil || len(frags) != w2+red {
+			c.Fail("refused-between-valid/result", fmt.Sprintf("Encode(%d fragments of %d bytes) after Encode(%d fragments) and a refused call: %d fragments, err %v", w2, size, w1, len(frags), err), nil)
+			return
+		}
+		c.NonTrivial()
+		for p := 1; p <= red; p++ {
+			want := make([]byte, size)
+			for k, sel := range spec.MatrixLine(p, w2) {
+				if sel {
+					for b := 0; b < size; b++ {
+						want[b] ^= data[k*size+b]
+					}
+				}
+			}
+			if !bytes.Equal(frags[w2+p-1], want) {
+				c.Fail("refused-between-valid/parity", fmt.Sprintf("Encode(%d fragments of %d bytes) after Encode(%d fragments) and a refused call (err %v): parity fragment %d is %x, specification %x", w2, size, w1, refusedErr, p, frags[w2+p-1], want), nil)
+				return
+			}
+		}
+	})
+
 	ms := []int{1, 2, 3, 7, 8, 9, 31, 32, 33}
 	reds := []int{0, 1, 5}
 	sp := (&engine.Space{}).Dim("fragment size(1..64)", 64).Dim("M", len(ms)).Dim("redundancy", len(reds)).Dim("data pattern{counting,0xFF fill,8-byte record,zero/FF rows,one byte per row,word-symmetric rows}", 6)
